@@ -691,7 +691,7 @@ def run_fit(spec, ctx):
             for v in spec["nodes"]:
                 r = ctx.call(est.estimate_cpd, v, **cpd_kwargs(spec, v, weighted))
                 if ctx.failed(r):
-                    if bayes and v in iso:
+                    if bayes and v in iso and r.type == "NetworkXError" and r.where.endswith("get_parents"):
                         ctx.violation(K_ISO_BE, f"{label}: estimate_cpd({v!r}) on an isolated node raised {r!r}", **detail)
                     else:
                         ctx.violation(exc_key(r), f"{label}: estimate_cpd({v!r}) raised {r!r}", **detail)
@@ -704,19 +704,16 @@ def run_fit(spec, ctx):
 
 
 # ------------------------------------------------------------------------------ fit_update
-def build_old_model(spec, S, ctx, sorted_evidence=False, nodes=None, edges=None):
-    """Model carrying the 'previous' CPDs.  Returns (model, PgmpyError or None)."""
+def build_old_model(spec, S, ctx, nodes=None, edges=None):
+    """Model carrying the 'previous' CPDs (hand-made with the spec's evidence order, or fitted on the first
+    chunk).  Returns None when the preparatory fit itself raised (reported as a violation)."""
     model = make_model(spec, nodes, edges)
     old = spec["old"]
     if old["how"] == "hand":
         cp = []
         for v in spec["nodes"]:
             c = old["cpds"][v]
-            cpd = make_cpd(v, c["parents"], c["table"], S)
-            if sorted_evidence and list(c["parents"]) != sorted(c["parents"]):
-                pa = sorted(c["parents"])
-                cpd = make_cpd(v, pa, table_from_named(named_of(cpd), v, pa, S), S)
-            cp.append(cpd)
+            cp.append(make_cpd(v, c["parents"], c["table"], S))
         model.add_cpds(*cp)
     else:
         df = make_frame(spec, spec["nodes"], list(range(old["first"])), False)
@@ -942,19 +939,24 @@ def run_em(spec, ctx):
 
     r, spy, model = em_call(spec, ctx, S, lat_states)
     if ctx.failed(r):
+        # Structural classification by neutralising one triggering feature at a time:
+        #   A: the same model as a BayesianNetwork instead of a plain DAG (DAG.fit loses `latents`)
+        #   B: the same run with an extra constant, unconnected observed column (one-column data)
         single = len(spec["obs"]) == 1
-        if spec["route"] == "dagfit" and lats:
-            # DAG.fit rebuilds the network from the edge list without `latents`: same model as a BayesianNetwork?
-            r2, _, _ = em_call(dict(spec, route="fit"), ctx, S, lat_states, extra_col=single)
-            if not ctx.failed(r2):
-                return ctx.violation(K_LAT_DAG, f"{label}: DAG.fit with latent nodes raised {r!r}; the same model as a "
-                                     f"BayesianNetwork fits", **detail)
-        if single and r.type == "KeyError":
-            r2, _, _ = em_call(spec, ctx, S, lat_states, extra_col=True)
-            if not ctx.failed(r2):
-                ctx.feature("em:single-column")
-                return ctx.violation(K_EM_1COL, f"{label}: one observed column: {r!r}; the same run with an extra "
-                                     f"constant column succeeds", **detail)
+        via_dag = spec["route"] == "dagfit" and bool(lats)
+        msg_lat = f"{label}: DAG.fit with latent nodes raised {r!r}; the same model as a BayesianNetwork fits"
+        msg_one = f"{label}: one observed column: {r!r}; the same run with an extra constant column succeeds"
+        if single:
+            ctx.feature("em:single-column")
+        if via_dag and not ctx.failed(em_call(dict(spec, route="fit"), ctx, S, lat_states)[0]):
+            return ctx.violation(K_LAT_DAG, msg_lat, **detail)
+        if single and r.type == "KeyError" and not ctx.failed(em_call(spec, ctx, S, lat_states, extra_col=True)[0]):
+            return ctx.violation(K_EM_1COL, msg_one, **detail)
+        if via_dag and single and not ctx.failed(em_call(dict(spec, route="fit"), ctx, S, lat_states, extra_col=True)[0]):
+            # both features are needed to make it pass: attribute to the mechanism that raised first
+            if r.type == "KeyError" and r.where.endswith("_parallel_compute_weights"):
+                return ctx.violation(K_EM_1COL, msg_one, **detail)
+            return ctx.violation(K_LAT_DAG, msg_lat, **detail)
         return ctx.violation(exc_key(r), f"{label} raised {r!r}", **detail)
     if len(spec["obs"]) == 1:
         ctx.feature("em:single-column")
@@ -992,7 +994,6 @@ def run_em(spec, ctx):
                 ctx.expect(dd is None, "c06:em-return-differs-from-last-iteration",
                            f"{label}: returned CPD of {sc[0]!r} is not the one of the last iteration: {dd}", **detail)
     if spec["route"] == "direct":
-        from pgmpy.models import BayesianNetwork
         target = make_model(spec)
         rr = ctx.call(target.add_cpds, *list(r))
         if ctx.failed(rr):
